@@ -290,30 +290,17 @@ func ruleIntegralVariants(w *World, r *RuleResult) {
 				r.bad(key, w.pos(f.Pos()), fmt.Sprintf("RoundToIntegralExact must report Inexact/Rounded but masks %#x", ms))
 			}
 		}
-		key = name + " | specials prologue then toIntegral"
-		if ok, why := w.prologueOf(f); ok && len(w.callsTo(f, "(*Context).toIntegral")) == 1 {
-			r.ok(key, w.pos(f.Pos()), why, true)
-		} else if w.prologueCheck == nil {
-			// C08.R1 has not run in this process: evaluate directly
-			if len(w.callsTo(f, "(*Context).toIntegralSpecials")) == 1 && len(w.callsTo(f, "(*Context).toIntegral")) == 1 {
-				r.ok(key, w.pos(f.Pos()), "calls toIntegralSpecials and toIntegral", true)
-			} else {
-				r.bad(key, w.pos(f.Pos()), "does not go through toIntegralSpecials + toIntegral")
-			}
-		} else {
-			r.bad(key, w.pos(f.Pos()), "does not go through toIntegralSpecials + toIntegral: "+why)
+		key = name + " | specials prologue, then quantize to exponent 0"
+		okPro := len(w.callsTo(f, "(*Context).toIntegralSpecials")) == 1 && w.callsTo(f, "(*Context).toIntegralSpecials")[0].Block() == f.Blocks[0]
+		okQ := w.quantizesToZero(f, 0)
+		switch {
+		case okPro && okQ:
+			r.ok(key, w.pos(f.Pos()), "toIntegralSpecials first; the value is produced by quantize(d, x, 0) (directly or through a helper)", true)
+		case !okPro:
+			r.bad(key, w.pos(f.Pos()), "does not start with the toIntegralSpecials prologue")
+		default:
+			r.bad(key, w.pos(f.Pos()), "the integral value is not produced by quantize(·, ·, 0)")
 		}
-	}
-	if f := w.fn("(*Context).toIntegral"); f != nil {
-		key := "(*Context).toIntegral | quantizes to exponent 0"
-		cs := w.callsTo(f, "(*Context).quantize")
-		if len(cs) == 1 && w.exprOf(f, cs[0].Common().Args[3]).String() == "0" {
-			r.ok(key, w.pos(f.Pos()), "quantize(d, x, 0)", true)
-		} else {
-			r.bad(key, w.pos(f.Pos()), "toIntegral must be quantize(d, x, 0)")
-		}
-	} else {
-		r.anchorMissing("(*Context).toIntegral")
 	}
 	for _, spec := range []struct {
 		fn, op string
@@ -355,6 +342,28 @@ func ruleIntegralVariants(w *World, r *RuleResult) {
 			r.bad(key, w.pos(f.Pos()), why)
 		}
 	}
+}
+
+// quantizesToZero: f calls quantize with the constant exponent 0, directly or
+// through an unexported helper that does.
+func (w *World) quantizesToZero(f *ssa.Function, depth int) bool {
+	if depth > 3 {
+		return false
+	}
+	for _, c := range w.callsTo(f, "(*Context).quantize") {
+		if k, ok := c.Common().Args[3].(*ssa.Const); ok && ci(k) == 0 {
+			return true
+		}
+	}
+	for _, c := range callsIn(f) {
+		g := callee(c)
+		if g != nil && w.inPkg(g) && (g.Object() == nil || !g.Object().Exported()) && w.shortName(g) != "(*Context).quantize" && w.reachesFn("(*Context).quantize")[g] {
+			if w.quantizesToZero(g, depth+1) {
+				return true
+			}
+		}
+	}
+	return false
 }
 
 // ---- C10 --------------------------------------------------------------------
